@@ -309,6 +309,11 @@ type Spelling struct {
 	T      *tape.Tape // nil: always int64
 	Labels bool       // spell map labels with any fitting Go integer type
 	Values bool       // spell integer values with any fitting Go integer type
+	// AlgLabel lets label 1 (alg) be spelt with any Go integer type too.  Off
+	// by default: go-cose looks alg up under int64(1) only (DESIGN section 5,
+	// F3), which is property C04's business and would otherwise make most
+	// constructed messages of other scenarios unsignable.
+	AlgLabel bool
 }
 
 func spellInt(t *tape.Tape, v int64) any {
@@ -425,7 +430,7 @@ func bucketToGo(b Bucket, sp Spelling, typedAlg bool) map[any]any {
 		lbl, isInt := k.Int64()
 		isInt = isInt && k.IsInt()
 		var gk any
-		if isInt && (critNamed[lbl] || lbl == refcose.LCrit) {
+		if isInt && (critNamed[lbl] || lbl == refcose.LCrit || (lbl == refcose.LAlg && !sp.AlgLabel)) {
 			gk = itemToGo(k, plain, true)
 		} else {
 			gk = itemToGo(k, sp, true)
